@@ -311,6 +311,13 @@ func Run(r *rt.Run) error {
 		}
 		emitS(items, fmt.Sprintf("sr/%d", i))
 	}
+	// names that look like something else to a careless writer: printf verbs, escapes, separators
+	for ni, nm := range [][3]string{{"d%b", "r%s%d", "m%v"}, {"100%", "%", "%%"}, {"d\\n", "r\\t", "m\\x"}, {"a b", "c,d", "e=f"}, {"d\"q", "r'q", "m`q"}} {
+		emitS([]sItem{
+			{nm[0], nm[1], nm[2], map[string]string{"host": "a"}, map[string]any{"f": int64(1)}, 1000},
+			{nm[0], nm[1], nm[2], map[string]string{}, map[string]any{"f": 2.5}, 1003},
+		}, fmt.Sprintf("snames/%d", ni))
+	}
 	// out-of-order recordings: a later point older than the first one (the shift stays the one fixed by the first point)
 	for oi, order := range [][]int{{1005, 1001, 1009}, {1005, 1009, 1000, 1005}, {1002, 1002, 1001}} {
 		var items []sItem
@@ -408,6 +415,7 @@ func Run(r *rt.Run) error {
 			{name: "m", gtags: map[string]string{}, tmax: 1010},
 			{name: "m", gtags: map[string]string{"host": "a"}, dims: []string{"host"}, tmax: 1010},
 			{name: "m", gtags: map[string]string{"host": "a b"}, dims: []string{"host"}, byName: true, tmax: 1009},
+			{name: "m", gtags: map[string]string{}, byName: true, tmax: 1010}, // grouped by measurement only
 		} {
 			b1 := g
 			b1.pts = []sItem{{tags: g.gtags, fields: map[string]any{"f": vc.v}, t: 1001}, {tags: g.gtags, fields: map[string]any{"f": vc.v, "g": int64(2)}, t: 1009}}
